@@ -6,6 +6,11 @@
 //               action): nothing / fail a check (throwing, longjmp, unexpected exception, recorded only) / _exit(k) /
 //               signal(s, SIG_DFL) + raise(s), s in 1..31 / abort().  0..30 EINTR results are injected in front of the
 //               real waitpid (the PlatformSpecificWaitPid seam forwards to waitpid afterwards).
+//               Bits 1-2 of the first byte choose how the separate-process flag reaches the tests: 0 (and 3)
+//               TestRegistry::setRunTestsInSeperateProcess(); 1 UtestShell::setRunInSeperateProcess() on single tests, mixed
+//               with tests that run in the parent process, IGNORE_TEST shells and TestRegistry::setRunIgnored(); 2 the command
+//               line: CommandLineTestRunner with "-p" and a decoded subset of -ri, -r2/-r3/-r (repetitions), -v, -f (crash on
+//               fail: a failed check aborts the child), -e (do not rethrow unexpected exceptions).
 //   odd         part (b): PlatformSpecificFork / PlatformSpecificWaitPid are stubs replaying a decoded outcome script per
 //               test: fork error, or segments "EINTR x L (0..40 or endless), then one of exited k / signalled s /
 //               stopped s / continued / error(errno)".  No process is created; the stub returns the harness's own pid.
@@ -16,7 +21,9 @@
 //         read from a shared page; status words seen by the parent are cross-checked against the model (harness
 //         self-check, signature prefix C11:harness-).
 #include "common.h"
+#include "CppUTest/CommandLineTestRunner.h"
 #include <algorithm>
+#include <stdexcept>
 #include <errno.h>
 #include <signal.h>
 #include <unistd.h>
@@ -32,16 +39,17 @@ namespace {
 
 enum { PRE = 0, SETUP, BODY, TEARDOWN, POST, NPHASE };
 const char* const PH[NPHASE] = {"pre", "setup", "body", "teardown", "post"};
-enum { K_NOTHING = 0, K_FAIL, K_EXIT, K_SIGNAL, K_ABORT };
+enum { K_NOTHING = 0, K_FAIL, K_EXIT, K_SIGNAL, K_ABORT, K_PRINT };
 enum { F_THROW = 0, F_LONGJMP, F_UNEXPECTED, F_ADDONLY };
 const char* const FV[4] = {"throw", "longjmp", "unexpected-exception", "recorded-only"};
+const int FAIL_SEL[8] = {F_THROW, F_LONGJMP, F_UNEXPECTED, F_ADDONLY, F_UNEXPECTED, F_THROW, F_LONGJMP, F_UNEXPECTED};   // 4 and 7: the exception is a std::exception (arg = 1)
 // reserved child statuses of the guards (appendix A.4: the child side of a fork never returns into the harness)
 const int GUARD_RET = 201;      // the child returned from runOneTest (longjmp out of a plugin action into the copied parent frame)
 const int GUARD_THROW = 202;    // an exception left runOneTest in the child (a real runner would std::terminate)
 const int GUARD_LATE = 203;     // the child returned from runAllTests
 const int GUARD_SIGRET = 204;   // raise() of a terminating signal returned
 const int GUARD_ORPHAN = 205;   // the parent was gone before the child started
-const int MAXT = 8, MAXA = 2;
+const int MAXT = 8, MAXA = 2, MAXREP = 3, MAXF = MAXT * MAXREP;   // MAXF: children of one program (tests x repetitions)
 const int EINTR_TOLERATED = 30; // "Tried 30 times": runs up to this length must be absorbed
 const int STUB_CALL_CAP = 1000; // harness cap on waitpid calls for one test
 
@@ -56,29 +64,39 @@ SigClass sig_class(int s) {
 }
 
 struct Act { int phase, kind, var, arg; };
-struct RealTest { Act acts[MAXA]; int nact; int eintr[2]; };
+struct RealTest { Act acts[MAXA]; int nact; int eintr[2]; bool ignored, flag; };   // ignored: IGNORE_TEST shell; flag: setRunInSeperateProcess() on this shell
+enum { ROUTE_REGISTRY = 0, ROUTE_PER_TEST, ROUTE_COMMAND_LINE };
+struct ProgOpts { int route; bool reg_flag, run_ignored; int repeat, repeat_sel; bool verbose, crash_on_fail, rethrow; };
+ProgOpts g_opt;
+bool test_runs(const RealTest& rt) { return !rt.ignored || g_opt.run_ignored; }
+bool test_separate(const RealTest& rt) { return g_opt.reg_flag || rt.flag; }
+bool test_inproc(const RealTest& rt) { return test_runs(rt) && !test_separate(rt); }
 enum { E_EXIT = 0, E_SIGNALED, E_STOPPED, E_CONTINUED, E_ERROR };
 struct Seg { int eintr; int ev; int arg; bool core; };   // eintr: 0..40, -1 endless
 struct StubTest { bool fork_fail; int fork_errno; std::vector<Seg> segs; };
 
-struct Shared { volatile uint8_t reached[MAXT][NPHASE]; volatile uint8_t acted[MAXT][MAXA]; };
+struct Shared { volatile uint8_t reached[MAXT][NPHASE]; volatile uint8_t acted[MAXT][MAXA]; volatile uint8_t wrong_child; };
 Shared* g_sh;
 
 // ---- state of the running program (parent side unless stated) ---------------------------------------------------
+int (*g_orig_fork)(void);
+int (*g_orig_waitpid)(int, int*, int);
 RealTest g_real[MAXT];
 StubTest g_stub[MAXT];
 int g_ntests;
 bool g_in_child = false;          // true only in a forked child
 pid_t g_parent;
-int g_forks;                      // calls of the fork seam so far; current test = g_forks - 1
+int g_forks;                      // calls of the fork seam so far; current child = g_forks - 1
+int g_plan[MAXF], g_plan_n;       // test index of every child the program is expected to create, in order
+int g_child_test = -1;            // child side: the test this child was created for
 std::vector<pid_t> g_pids;
 pid_t g_last_pid;
-bool g_env_fork_failed[MAXT];
+bool g_env_fork_failed[MAXF];
 struct WaitEntry { int test; int ret; int err; int status; bool injected; };
 std::vector<WaitEntry> g_waitlog;
-int g_eintr_left[MAXT][2];
-int g_stage[MAXT];
-bool g_last_was_stop[MAXT];
+int g_eintr_left[MAXF][2];
+int g_stage[MAXF];
+bool g_last_was_stop[MAXF];
 std::string g_flag_sig, g_flag_msg;
 // stub mode
 size_t g_seg_idx[MAXT];
@@ -90,20 +108,33 @@ int g_sigcont_at_start[MAXT + 1];
 
 void flag(const char* sig, const std::string& msg) { if (g_flag_sig.empty()) { g_flag_sig = sig; g_flag_msg = msg; } }
 
-// ---- recording result ---------------------------------------------------------------------------------------------
+// ---- recording: everything the parent's TestResult reports goes through its TestOutput -------------------------------
 struct Rec { std::string test, msg; };
-class RecResult : public TestResult {
+struct Run {            // one TestRegistry::runAllTests
+    std::vector<Rec> recs; std::vector<std::string> started; size_t ended;
+    bool finished; size_t failures, runs, tests, ignored; bool is_failure;
+    Run() : ended(0), finished(false), failures(0), runs(0), tests(0), ignored(0), is_failure(false) {}
+};
+std::vector<Run> g_runs;
+class RecOutput : public StringBufferTestOutput {
 public:
-    std::vector<Rec> recs;
-    std::vector<std::string> started, ended;
-    explicit RecResult(TestOutput& o) : TestResult(o) {}
-    void addFailure(const TestFailure& f) CPPUTEST_OVERRIDE {
-        Rec r; r.test = f.getTestNameOnly().asCharString(); r.msg = f.getMessage().asCharString();
-        recs.push_back(r);
-        TestResult::addFailure(f);
+    void printTestsStarted() CPPUTEST_OVERRIDE { if (!g_in_child) g_runs.push_back(Run()); StringBufferTestOutput::printTestsStarted(); }
+    void printCurrentTestStarted(const UtestShell& t) CPPUTEST_OVERRIDE {
+        if (!g_in_child && !g_runs.empty()) g_runs.back().started.push_back(t.getName().asCharString());
+        StringBufferTestOutput::printCurrentTestStarted(t);
     }
-    void currentTestStarted(UtestShell* t) CPPUTEST_OVERRIDE { started.push_back(t->getName().asCharString()); TestResult::currentTestStarted(t); }
-    void currentTestEnded(UtestShell* t) CPPUTEST_OVERRIDE { ended.push_back(t->getName().asCharString()); TestResult::currentTestEnded(t); }
+    void printCurrentTestEnded(const TestResult& r) CPPUTEST_OVERRIDE { if (!g_in_child && !g_runs.empty()) g_runs.back().ended++; StringBufferTestOutput::printCurrentTestEnded(r); }
+    void printFailure(const TestFailure& f) CPPUTEST_OVERRIDE {
+        if (!g_in_child && !g_runs.empty()) { Rec r; r.test = f.getTestNameOnly().asCharString(); r.msg = f.getMessage().asCharString(); g_runs.back().recs.push_back(r); }
+        StringBufferTestOutput::printFailure(f);
+    }
+    void printTestsEnded(const TestResult& r) CPPUTEST_OVERRIDE {
+        if (!g_in_child && !g_runs.empty()) {
+            Run& x = g_runs.back(); x.finished = true; x.failures = r.getFailureCount(); x.runs = r.getRunCount(); x.tests = r.getTestCount();
+            x.ignored = r.getIgnoredCount(); x.is_failure = r.isFailure();
+        }
+        StringBufferTestOutput::printTestsEnded(r);
+    }
 };
 
 // ---- child side ------------------------------------------------------------------------------------------------------
@@ -116,39 +147,45 @@ void do_action(int t, int ai, UtestShell* shell, TestResult* result) {
     case K_FAIL:
         if (a.phase == PRE || a.phase == POST) {
             result->addFailure(TestFailure(shell, "c11 plugin failure"));
-            if (a.var == F_THROW) NormalTestTerminator().exitCurrentTest();
-            if (a.var == F_LONGJMP) TestTerminatorWithoutExceptions().exitCurrentTest();
+            if (a.var == F_THROW) UtestShell::getCurrentTestTerminator().exitCurrentTest();
+            if (a.var == F_LONGJMP) UtestShell::getCurrentTestTerminatorWithoutExceptions().exitCurrentTest();
             return;
         }
         switch (a.var) {
         case F_THROW: UtestShell::getCurrent()->fail("c11 failed check", __FILE__, __LINE__); return;
-        case F_LONGJMP: UtestShell::getCurrent()->fail("c11 failed C check", __FILE__, __LINE__, TestTerminatorWithoutExceptions()); return;
-        case F_UNEXPECTED: throw 42;
+        case F_LONGJMP: UtestShell::getCurrent()->fail("c11 failed C check", __FILE__, __LINE__, UtestShell::getCurrentTestTerminatorWithoutExceptions()); return;
+        case F_UNEXPECTED: if (a.arg) throw std::runtime_error("c11 std exception"); throw 42;
         default: UtestShell::getCurrent()->addFailure(TestFailure(UtestShell::getCurrent(), "c11 recorded failure")); return;
         }
-    case K_EXIT: _exit(a.arg);
+    case K_PRINT:
+        if (a.phase == PRE || a.phase == POST) result->print("c11 plugin prints\n");
+        else UtestShell::getCurrent()->print("c11 test prints", __FILE__, __LINE__);
+        return;
+    case K_EXIT: if (!g_in_child) return; _exit(a.arg);
     case K_SIGNAL: {
+        if (!g_in_child) return;
         signal(a.arg, SIG_DFL);                       // fails for SIGKILL / SIGSTOP, whose action cannot be changed anyway
         sigset_t m; sigemptyset(&m); sigaddset(&m, a.arg); sigprocmask(SIG_UNBLOCK, &m, NULL);
         raise(a.arg);
         if (sig_class(a.arg) == S_TERM) _exit(GUARD_SIGRET);
         return;
     }
-    case K_ABORT: signal(SIGABRT, SIG_DFL); abort();
+    case K_ABORT: if (!g_in_child) return; signal(SIGABRT, SIG_DFL); abort();
     }
 }
 
 void hook(int t, int phase, UtestShell* shell, TestResult* result) {
-    if (!g_in_child) {   // never execute a killing action in the harness process itself
-        flag("C11:test-executed-in-parent-process", sfmt("the %s point of test t%d was executed in the parent process although separate-process mode is on", PH[phase], t));
+    bool inproc = test_inproc(g_real[t]);
+    if (!g_in_child && !inproc) {   // never execute a killing action in the harness process itself
+        flag("C11:test-executed-in-parent-process", sfmt("the %s point of test t%d was executed in the parent process although the test is to run in a separate process", PH[phase], t));
         return;
     }
+    if (g_in_child && (inproc || g_child_test != t)) { g_sh->wrong_child = 1; _exit(GUARD_LATE); }   // a child runs a test it was not created for
     g_sh->reached[t][phase] = 1;
     for (int ai = 0; ai < g_real[t].nact; ai++)
         if (g_real[t].acts[ai].phase == phase) do_action(t, ai, shell, result);
 }
 
-class C11Shell;
 class C11Test : public Utest {
 public:
     int t_; UtestShell* shell_;
@@ -158,35 +195,40 @@ public:
     void teardown() CPPUTEST_OVERRIDE { hook(t_, TEARDOWN, shell_, NULLPTR); }
 };
 const char* const TNAME[MAXT] = {"t0", "t1", "t2", "t3", "t4", "t5", "t6", "t7"};
-class C11Shell : public UtestShell {
+int index_of(const UtestShell& s) { SimpleString n = s.getName(); return (n.size() == 2 && n.at(0) == 't') ? n.at(1) - '0' : 0; }
+template <class Base> class C11ShellT : public Base {
 public:
     int t_;
-    explicit C11Shell(int t) : UtestShell("c11", TNAME[t], "c11_file.cpp", (size_t)(100 + t)), t_(t) {}
+    explicit C11ShellT(int t) : Base("c11", TNAME[t], "c11_file.cpp", (size_t)(100 + t)), t_(t) {}
     Utest* createTest() CPPUTEST_OVERRIDE { return new C11Test(t_, this); }
     void destroyTest(Utest* u) CPPUTEST_OVERRIDE { delete u; }
     void runOneTest(TestPlugin* p, TestResult& r) CPPUTEST_OVERRIDE {
-        try { UtestShell::runOneTest(p, r); }
+        try { Base::runOneTest(p, r); }
         catch (...) { if (g_in_child) _exit(GUARD_THROW); throw; }
         if (g_in_child) _exit(GUARD_RET);      // guard of appendix A.4
     }
 };
+typedef C11ShellT<UtestShell> C11Shell;
+typedef C11ShellT<IgnoredUtestShell> C11IgnoredShell;
 class C11Plugin : public TestPlugin {
 public:
     C11Plugin() : TestPlugin("c11plugin") {}
-    void preTestAction(UtestShell& s, TestResult& r) CPPUTEST_OVERRIDE { hook(static_cast<C11Shell&>(s).t_, PRE, &s, &r); }
-    void postTestAction(UtestShell& s, TestResult& r) CPPUTEST_OVERRIDE { hook(static_cast<C11Shell&>(s).t_, POST, &s, &r); }
+    void preTestAction(UtestShell& s, TestResult& r) CPPUTEST_OVERRIDE { hook(index_of(s), PRE, &s, &r); }
+    void postTestAction(UtestShell& s, TestResult& r) CPPUTEST_OVERRIDE { hook(index_of(s), POST, &s, &r); }
 };
 
 // ---- seams, part (a): real processes -------------------------------------------------------------------------------
-int (*g_orig_fork)(void);
-int (*g_orig_waitpid)(int, int*, int);
 
 int real_fork_seam(void) {
-    int t = g_forks++;
-    if (t >= MAXT) { flag("C11:more-children-than-tests", "the fork seam was called more often than there are tests"); errno = EAGAIN; return -1; }
-    pid_t p = fork();
+    int t = g_forks++;       // ordinal of the child
+    if (t >= g_plan_n) {
+        flag("C11:more-children-than-expected", sfmt("the fork seam was called %d times, the program has %d tests to run in a separate process (repetitions included)", t + 1, g_plan_n));
+        errno = EAGAIN; return -1;
+    }
+    pid_t p = g_orig_fork();       // the platform's default implementation (PlatformSpecificForkImplementation)
     if (p == 0) {
         g_in_child = true;
+        g_child_test = g_plan[t];
         prctl(PR_SET_PDEATHSIG, SIGKILL);            // no stray (possibly stopped) child survives the harness
         if (getppid() != g_parent) _exit(GUARD_ORPHAN);
         return 0;
@@ -211,7 +253,7 @@ char proc_state(int pid) {
 
 int real_waitpid_seam(int pid, int* status, int options) {
     int t = g_forks - 1;
-    if (t < 0 || t >= MAXT || g_env_fork_failed[t] || pid != g_last_pid || pid <= 0) {
+    if (t < 0 || t >= g_plan_n || g_env_fork_failed[t] || pid != g_last_pid || pid <= 0) {
         flag("C11:waitpid-on-wrong-process", sfmt("waitpid(%d, ...) called while the child of the current test is %d", pid, (int)g_last_pid));
         errno = ECHILD; return -1;
     }
@@ -232,12 +274,12 @@ int real_waitpid_seam(int pid, int* status, int options) {
         siginfo_t si; memset(&si, 0, sizeof si);
         int r = waitid(P_PID, (id_t)pid, &si, WEXITED | WSTOPPED | WCONTINUED | WNOHANG | WNOWAIT);
         if (r == 0 && si.si_pid == 0 && proc_state(pid) == 'T') {
-            flag("C11:stopped-child-not-continued", sfmt("child of t%d was reported as stopped and the parent waits again without having sent SIGCONT", t));
+            flag("C11:stopped-child-not-continued", sfmt("child #%d (t%d) was reported as stopped and the parent waits again without having sent SIGCONT", t, g_plan[t]));
             kill(pid, SIGCONT);   // keep the harness alive
         }
         g_last_was_stop[t] = false;
     }
-    int w = waitpid(pid, status, options);
+    int w = g_orig_waitpid(pid, status, options);     // the platform's default implementation
     int err = errno;
     WaitEntry e = {t, w, w < 0 ? err : 0, (w > 0 && status) ? *status : 0, false}; g_waitlog.push_back(e);
     if (w > 0) { g_stage[t]++; if (status && WIFSTOPPED(*status)) g_last_was_stop[t] = true; }
@@ -250,7 +292,7 @@ void on_sigcont(int) { g_sigcont_seen++; }
 
 int stub_fork_seam(void) {
     int t = g_forks++;
-    if (t >= MAXT) { flag("C11:more-children-than-tests", "the fork seam was called more often than there are tests"); errno = EAGAIN; return -1; }
+    if (t >= g_plan_n) { flag("C11:more-children-than-expected", "the fork seam was called more often than there are tests"); errno = EAGAIN; return -1; }
     g_sigcont_at_start[t] = (int)g_sigcont_seen;
     if (g_stub[t].fork_fail) { errno = g_stub[t].fork_errno; return -1; }
     return (int)g_parent;        // "parent side"; kill(own pid, SIGCONT) is harmless
@@ -304,7 +346,7 @@ int stub_waitpid_seam(int pid, int* status, int options) {
 }
 
 // ---- records --------------------------------------------------------------------------------------------------------
-enum { R_FAILED, R_KILLED, R_STOPPED, R_FORK, R_WAIT, R_GIVEUP, R_OTHER };
+enum { R_FAILED, R_KILLED, R_STOPPED, R_FORK, R_WAIT, R_GIVEUP, R_INPROC, R_OTHER };
 struct Tok { int kind; int sig; };
 Tok classify(const std::string& m) {
     Tok t = {R_OTHER, 0};
@@ -316,6 +358,7 @@ Tok classify(const std::string& m) {
     else if (m.find("fork() failed") != std::string::npos) t.kind = R_FORK;
     else if (m.find("waitpid() failed with EINTR") != std::string::npos) t.kind = R_GIVEUP;
     else if (m.find("waitpid() failed") != std::string::npos) t.kind = R_WAIT;
+    else if (m.find("c11 ") == 0 || m.find("Unexpected exception") == 0) t.kind = R_INPROC;     // a failure of the test itself, recorded in the parent process
     return t;
 }
 std::string tok_str(const Tok& t) {
@@ -326,6 +369,7 @@ std::string tok_str(const Tok& t) {
     case R_FORK: return "fork-failed";
     case R_WAIT: return "waitpid-failed";
     case R_GIVEUP: return "eintr-giving-up";
+    case R_INPROC: return "own-failure";
     default: return "other";
     }
 }
@@ -338,9 +382,11 @@ bool same(const std::vector<Tok>& a, const std::vector<Tok>& b) {
 
 // ---- model of one child (POSIX default actions + the framework's documented phase rules) ----------------------------
 struct Expect { int stops, maybe; bool final_signal; int final_arg; uint8_t reach[NPHASE]; uint8_t acted[MAXA]; bool dies_outside_body; bool guard_ret, guard_throw;
-                bool status_by_code; int child_failures; };   // status_by_code: the child ran to its end, the exit status is computed by the code under test
-Expect model_child(const RealTest& rt) {
+                bool status_by_code; int child_failures; bool crash_abort; };   // status_by_code: the child ran to its end, the exit status is computed by the code under test
+// inproc: the test runs in the parent process (nothing can die; every failure is recorded directly)
+Expect model_child(const RealTest& rt, bool inproc, bool crash_on_fail) {
     Expect e; memset(&e, 0, sizeof e);
+    const bool crash = crash_on_fail && !inproc, rethrow = g_opt.rethrow && !inproc;
     int child_failures = 0; bool skip_body = false, done = false;
     for (int ph = 0; ph < NPHASE && !done; ph++) {
         if (ph == BODY && skip_body) continue;
@@ -351,10 +397,16 @@ Expect model_child(const RealTest& rt) {
             e.acted[ai] = 1;
             bool leave_phase = false;
             switch (a.kind) {
-            case K_NOTHING: break;
+            case K_NOTHING: case K_PRINT: break;
             case K_FAIL:
                 child_failures++;
-                if (ph == PRE || ph == POST) {
+                if (crash && (a.var == F_THROW || a.var == F_LONGJMP)) {
+                    // crash on fail: the terminator of a failed check calls abort() before leaving the test
+                    e.final_signal = true; e.final_arg = SIGABRT; e.crash_abort = true; done = true; if (ph != BODY) e.dies_outside_body = true;
+                } else if (rethrow && a.var == F_UNEXPECTED && ph != PRE && ph != POST) {
+                    // the unexpected exception is recorded and thrown on: it leaves runOneTest in the child (a real runner terminates)
+                    e.final_signal = false; e.final_arg = GUARD_THROW; e.guard_throw = true; done = true;
+                } else if (ph == PRE || ph == POST) {
                     if (a.var == F_THROW) { e.final_signal = false; e.final_arg = GUARD_THROW; e.guard_throw = true; done = true; }
                     else if (a.var == F_LONGJMP) { e.final_signal = false; e.final_arg = GUARD_RET; e.guard_ret = true; done = true; }
                 } else if (a.var != F_ADDONLY) {
@@ -362,9 +414,10 @@ Expect model_child(const RealTest& rt) {
                     if (ph == SETUP) skip_body = true;
                 }
                 break;
-            case K_EXIT: e.final_signal = false; e.final_arg = a.arg; done = true; if (a.arg != 0 && ph != BODY) e.dies_outside_body = true; break;
-            case K_ABORT: e.final_signal = true; e.final_arg = SIGABRT; done = true; if (ph != BODY) e.dies_outside_body = true; break;
+            case K_EXIT: if (inproc) break; e.final_signal = false; e.final_arg = a.arg; done = true; if (a.arg != 0 && ph != BODY) e.dies_outside_body = true; break;
+            case K_ABORT: if (inproc) break; e.final_signal = true; e.final_arg = SIGABRT; done = true; if (ph != BODY) e.dies_outside_body = true; break;
             case K_SIGNAL:
+                if (inproc) break;
                 switch (sig_class(a.arg)) {
                 case S_TERM: e.final_signal = true; e.final_arg = a.arg; done = true; if (ph != BODY) e.dies_outside_body = true; break;
                 case S_IGN: break;
@@ -384,10 +437,12 @@ Expect model_child(const RealTest& rt) {
 std::string failure_routes(const RealTest& rt, const Expect& e);
 std::string act_str(const Act& a) {
     switch (a.kind) {
-    case K_FAIL: return sfmt("%s:fail(%s)", PH[a.phase], ((a.phase == PRE || a.phase == POST) && a.var >= F_UNEXPECTED) ? FV[F_ADDONLY] : FV[a.var]);
+    case K_FAIL: return sfmt("%s:fail(%s%s)", PH[a.phase], ((a.phase == PRE || a.phase == POST) && a.var >= F_UNEXPECTED) ? FV[F_ADDONLY] : FV[a.var],
+                             (a.var == F_UNEXPECTED && a.arg && a.phase != PRE && a.phase != POST) ? ":std" : "");
     case K_EXIT: return sfmt("%s:_exit(%d)", PH[a.phase], a.arg);
     case K_SIGNAL: return sfmt("%s:raise(%d)", PH[a.phase], a.arg);
     case K_ABORT: return sfmt("%s:abort", PH[a.phase]);
+    case K_PRINT: return sfmt("%s:print", PH[a.phase]);
     default: return sfmt("%s:nothing", PH[a.phase]);
     }
 }
@@ -406,6 +461,7 @@ std::string failure_routes(const RealTest& rt, const Expect& e) {
 }
 std::string real_str(const RealTest& rt) {
     std::string s = "[";
+    if (g_opt.route != ROUTE_REGISTRY) s += sfmt("%s%s ", rt.ignored ? "IGNORE_TEST" : "TEST", rt.flag ? "+separate-flag" : "");
     for (int i = 0; i < rt.nact; i++) { if (i) s += "; "; s += act_str(rt.acts[i]); }
     if (rt.eintr[0] || rt.eintr[1]) s += sfmt(" | EINTR x%d before the 1st wait, x%d before the 2nd", rt.eintr[0], rt.eintr[1]);
     return s + "]";
@@ -439,47 +495,94 @@ void reset_program_state() {
     verif::fake_millis_value = 0;
 }
 
+class C11Runner : public CommandLineTestRunner {
+public:
+    C11Runner(int ac, const char* const* av, TestRegistry* r) : CommandLineTestRunner(ac, av, r) {}
+    TestOutput* createConsoleOutput() CPPUTEST_OVERRIDE { return new RecOutput; }   // deleted by the runner
+};
+
+void default_opts() { memset(&g_opt, 0, sizeof g_opt); g_opt.route = ROUTE_REGISTRY; g_opt.reg_flag = true; g_opt.repeat = 1; }
+
 struct Program {
-    StringBufferTestOutput out;
-    RecResult result;
+    RecOutput out;
     TestRegistry registry;
     C11Plugin plugin;
-    std::vector<C11Shell*> shells;
+    std::vector<UtestShell*> shells;
     bool parent_exception;
-    Program(int n) : result(out), parent_exception(false) {
-        for (int t = 0; t < n; t++) shells.push_back(new C11Shell(t));
+    int runner_rc;
+    std::string args;
+    explicit Program(int n) : parent_exception(false), runner_rc(-1) {
+        for (int t = 0; t < n; t++) {
+            UtestShell* sh = g_real[t].ignored ? static_cast<UtestShell*>(new C11IgnoredShell(t)) : static_cast<UtestShell*>(new C11Shell(t));
+            if (g_opt.route == ROUTE_PER_TEST && g_real[t].flag) sh->setRunInSeperateProcess();
+            shells.push_back(sh);
+        }
         for (int t = n - 1; t >= 0; t--) registry.addTest(shells[(size_t)t]);     // addTest prepends
         registry.installPlugin(&plugin);
-        registry.setRunTestsInSeperateProcess();
+        if (g_opt.route != ROUTE_COMMAND_LINE) {
+            if (g_opt.reg_flag) registry.setRunTestsInSeperateProcess();
+            if (g_opt.run_ignored) registry.setRunIgnored();
+        }
     }
     ~Program() { for (size_t i = 0; i < shells.size(); i++) delete shells[i]; }
     void run() {
-        try { registry.runAllTests(result); }
+        g_runs.clear();
+        try {
+            if (g_opt.route == ROUTE_COMMAND_LINE) {
+                std::vector<const char*> av;
+                av.push_back("c11"); av.push_back("-p");
+                if (g_opt.run_ignored) av.push_back("-ri");
+                if (g_opt.verbose) av.push_back("-v");
+                if (g_opt.crash_on_fail) av.push_back("-f");
+                if (!g_opt.rethrow) av.push_back("-e");
+                if (g_opt.repeat_sel == 1) av.push_back("-r2");
+                if (g_opt.repeat_sel == 2) av.push_back("-r3");
+                if (g_opt.repeat_sel == 3) av.push_back("-r");      // bare: twice; last, so that it cannot swallow an argument
+                for (size_t i = 0; i < av.size(); i++) { args += av[i]; args += " "; }
+                C11Runner runner((int)av.size(), av.data(), &registry);
+                runner_rc = runner.runAllTestsMain();
+            } else {
+                TestResult result(out);
+                registry.runAllTests(result);
+            }
+        }
         catch (...) { if (g_in_child) _exit(GUARD_THROW); parent_exception = true; }
         if (g_in_child) _exit(GUARD_LATE);     // last line of defence: a child never returns into the engine
+        UtestShell::restoreDefaultTestTerminator();    // -f and the rethrow switch are process-wide statics
+        UtestShell::setRethrowExceptions(false);
     }
-    std::vector<Tok> toks_of(int t) const {
+    std::vector<Tok> toks_of(int rep, int t) const {
         std::vector<Tok> v;
-        for (size_t i = 0; i < result.recs.size(); i++) if (result.recs[i].test == TNAME[t]) v.push_back(classify(result.recs[i].msg));
+        const Run& r = g_runs[(size_t)rep];
+        for (size_t i = 0; i < r.recs.size(); i++) if (r.recs[i].test == TNAME[t]) v.push_back(classify(r.recs[i].msg));
         return v;
     }
 };
 
-int check_totals(const Program& p, int ntests) {
+// counts of every repetition; tests_run / tests_ignored: how many tests the model says run / are skipped as ignored
+int check_totals(const Program& p, int ntests, int tests_run, int tests_ignored) {
     V_CHECK(!p.parent_exception, "C11:exception-in-parent", "an exception left runAllTests in the parent process");
-    V_CHECK(g_forks == ntests, "C11:later-test-not-run", "%d tests registered, the fork seam was called %d times", ntests, g_forks);
-    V_CHECK((int)p.result.started.size() == ntests && (int)p.result.ended.size() == ntests && (int)p.result.getRunCount() == ntests && (int)p.result.getTestCount() == ntests,
-            "C11:later-test-not-run", "%d tests registered; started %zu, ended %zu, run count %zu, test count %zu", ntests,
-            p.result.started.size(), p.result.ended.size(), p.result.getRunCount(), p.result.getTestCount());
-    for (int t = 0; t < ntests; t++)
-        V_CHECK(p.result.started[(size_t)t] == TNAME[t], "C11:later-test-not-run", "test #%d started is %s, expected %s", t, p.result.started[(size_t)t].c_str(), TNAME[t]);
-    for (size_t i = 0; i < p.result.recs.size(); i++) {
-        bool ok = false;
-        for (int t = 0; t < ntests; t++) if (p.result.recs[i].test == TNAME[t]) ok = true;
-        V_CHECK(ok, "C11:failure-attributed-to-unknown-test", "failure '%s' recorded for test '%s'", p.result.recs[i].msg.c_str(), p.result.recs[i].test.c_str());
+    V_CHECK(g_forks == g_plan_n, "C11:later-test-not-run", "%d children expected (tests to run in a separate process x repetitions), the fork seam was called %d times", g_plan_n, g_forks);
+    V_CHECK((int)g_runs.size() == g_opt.repeat, "C11:repetitions", "%d repetitions requested (%s), %zu executed", g_opt.repeat, p.args.c_str(), g_runs.size());
+    size_t total = 0;
+    for (int rep = 0; rep < g_opt.repeat; rep++) {
+        const Run& r = g_runs[(size_t)rep];
+        V_CHECK(r.finished && (int)r.started.size() == ntests && (int)r.ended == ntests && (int)r.runs == tests_run && (int)r.tests == ntests && (int)r.ignored == tests_ignored,
+                "C11:later-test-not-run", "repetition %d: %d tests registered, %d to run, %d ignored; started %zu, ended %zu, run count %zu, test count %zu, ignored count %zu, finished %d",
+                rep, ntests, tests_run, tests_ignored, r.started.size(), r.ended, r.runs, r.tests, r.ignored, (int)r.finished);
+        for (int t = 0; t < ntests; t++)
+            V_CHECK(r.started[(size_t)t] == TNAME[t], "C11:later-test-not-run", "repetition %d: test #%d started is %s, expected %s", rep, t, r.started[(size_t)t].c_str(), TNAME[t]);
+        for (size_t i = 0; i < r.recs.size(); i++) {
+            bool ok = false;
+            for (int t = 0; t < ntests; t++) if (r.recs[i].test == TNAME[t]) ok = true;
+            V_CHECK(ok, "C11:failure-attributed-to-unknown-test", "failure '%s' recorded for test '%s'", r.recs[i].msg.c_str(), r.recs[i].test.c_str());
+        }
+        V_CHECK(r.failures == r.recs.size(), "C11:failure-count", "repetition %d: failure count %zu but %zu failures were reported", rep, r.failures, r.recs.size());
+        V_CHECK(r.is_failure == (!r.recs.empty() || tests_run + tests_ignored == 0), "C11:overall-verdict", "repetition %d: isFailure() is %d with %zu recorded failures", rep, (int)r.is_failure, r.recs.size());
+        total += r.recs.size();
     }
-    V_CHECK(p.result.getFailureCount() == p.result.recs.size(), "C11:failure-count", "failure count %zu but %zu failures were recorded", p.result.getFailureCount(), p.result.recs.size());
-    V_CHECK(p.result.isFailure() == !p.result.recs.empty(), "C11:overall-verdict", "isFailure() is %d with %zu recorded failures", (int)p.result.isFailure(), p.result.recs.size());
+    if (g_opt.route == ROUTE_COMMAND_LINE)
+        V_CHECK((p.runner_rc != 0) == (total != 0), "C11:overall-verdict", "the command line runner (%s) returned %d with %zu recorded failures", p.args.c_str(), p.runner_rc, total);
     return 0;
 }
 
@@ -500,8 +603,8 @@ uint8_t g_seen_sig[NPHASE][32], g_seen_exit[NPHASE][256];
 int g_seen_sig_n, g_seen_exit_n;
 void note_enumeration(int ntests) {
     for (int t = 0; t < ntests; t++) {
-        if (g_env_fork_failed[t]) continue;
         const RealTest& rt = g_real[t];
+        if (!test_runs(rt) || !test_separate(rt)) continue;
         for (int ai = 0; ai < rt.nact; ai++) {
             const Act& a = rt.acts[ai];
             if (!g_sh->acted[t][ai]) continue;
@@ -520,7 +623,15 @@ void note_enumeration(int ntests) {
 int run_real_program(int ntests, bool& nontrivial) {
     reset_program_state();
     g_ntests = ntests;
-    for (int t = 0; t < ntests; t++) { g_eintr_left[t][0] = g_real[t].eintr[0]; g_eintr_left[t][1] = g_real[t].eintr[1]; }
+    int tests_run = 0, tests_ignored = 0;
+    g_plan_n = 0;
+    for (int rep = 0; rep < g_opt.repeat; rep++)
+        for (int t = 0; t < ntests; t++)
+            if (test_runs(g_real[t]) && test_separate(g_real[t])) {
+                g_eintr_left[g_plan_n][0] = g_real[t].eintr[0]; g_eintr_left[g_plan_n][1] = g_real[t].eintr[1];
+                g_plan[g_plan_n++] = t;
+            }
+    for (int t = 0; t < ntests; t++) { if (test_runs(g_real[t])) tests_run++; else tests_ignored++; }
     int rc = 0;
     {
         Program p(ntests);
@@ -532,54 +643,82 @@ int run_real_program(int ntests, bool& nontrivial) {
 
         rc = [&]() -> int {
             if (!g_flag_sig.empty()) return verif::fail(g_flag_sig.c_str(), "%s", g_flag_msg.c_str());
-            if (int r = check_totals(p, ntests)) return r;
+            V_CHECK(!g_sh->wrong_child, "C11:child-runs-wrong-test", "a child process executed a test it was not created for (or a test that is to run in the parent process)");
+            if (int r = check_totals(p, ntests, tests_run, tests_ignored)) return r;
+            int f = 0;    // ordinal of the child
+            for (int rep = 0; rep < g_opt.repeat; rep++)
             for (int t = 0; t < ntests; t++) {
                 const RealTest& rt = g_real[t];
-                std::vector<Tok> got = p.toks_of(t);
-                if (g_env_fork_failed[t]) {   // the machine refused a process: the documented record is the fork failure
-                    verif::observe("fork() really failed in part (a); judged by the fork-failure rule");
-                    V_CHECK(got.size() == 1 && got[0].kind == R_FORK, "C11:records-for-fork-failure", "t%d: fork failed, records %s", t, toks_str(got).c_str());
+                std::vector<Tok> got = p.toks_of(rep, t);
+                std::string ctx = sfmt("%s%st%d %s", p.args.c_str(), g_opt.repeat > 1 ? sfmt("repetition %d ", rep).c_str() : "", t, real_str(rt).c_str());
+                if (!test_runs(rt)) {     // IGNORE_TEST without run-ignored: counted as ignored, never executed, no child
+                    V_CHECK(got.empty(), "C11:records-for-ignored-test", "%s: ignored test, parent recorded %s", ctx.c_str(), toks_str(got).c_str());
+                    for (int ph = 0; ph < NPHASE; ph++)
+                        V_CHECK(!g_sh->reached[t][ph], "C11:ignored-test-executed", "%s: point '%s' of an ignored test was executed", ctx.c_str(), PH[ph]);
                     continue;
                 }
-                Expect e = model_child(rt);
+                if (test_inproc(rt)) {    // no separate-process flag reaches this test: it runs in the parent, every failure is recorded as it is
+                    Expect e = model_child(rt, true, false);
+                    std::vector<Tok> want;
+                    for (int k = 0; k < e.child_failures; k++) { Tok x = {R_INPROC, 0}; want.push_back(x); }
+                    V_CHECK(same(got, want), "C11:records-for-in-process-test", "%s: test without the separate-process flag; parent recorded %s, expected %s", ctx.c_str(),
+                            toks_str(got).c_str(), toks_str(want).c_str());
+                    for (int ph = 0; ph < NPHASE; ph++)
+                        V_CHECK(g_sh->reached[t][ph] == e.reach[ph], "C11:child-progress", "%s: point '%s' %s, model says %s", ctx.c_str(), PH[ph],
+                                g_sh->reached[t][ph] ? "reached" : "not reached", e.reach[ph] ? "reached" : "not reached");
+                    continue;
+                }
+                int fo = f++;
+                if (g_env_fork_failed[fo]) {   // the machine refused a process: the documented record is the fork failure
+                    verif::observe("fork() really failed in part (a); judged by the fork-failure rule");
+                    V_CHECK(got.size() == 1 && got[0].kind == R_FORK, "C11:records-for-fork-failure", "%s: fork failed, records %s", ctx.c_str(), toks_str(got).c_str());
+                    continue;
+                }
+                Expect e = model_child(rt, false, g_opt.crash_on_fail);
                 if (e.dies_outside_body || rt.eintr[0] + rt.eintr[1] > 0) nontrivial = true;
                 // what the kernel reported to the parent for this child
                 int stops_seen = 0, finals_seen = 0, final_status = 0, eintr_seen = 0;
                 for (size_t i = 0; i < g_waitlog.size(); i++) {
                     const WaitEntry& w = g_waitlog[i];
-                    if (w.test != t) continue;
+                    if (w.test != fo) continue;
                     if (w.ret < 0) { if (w.err == EINTR) eintr_seen++; continue; }
                     if (WIFSTOPPED(w.status)) stops_seen++;
                     else if (WIFEXITED(w.status) || WIFSIGNALED(w.status)) { finals_seen++; final_status = w.status; }
                 }
+                if (e.crash_abort && finals_seen == 1 && !(WIFSIGNALED(final_status) && WTERMSIG(final_status) == SIGABRT)) {
+                    // -f is there to make a failed check abort the child; whether it does is not C11's matter.  When the child did
+                    // not die there, it is judged as a child that failed a check in the ordinary way.
+                    verif::observe("with -f (crash on fail) a failed check did not abort the child; judged as an ordinary failed check");
+                    e = model_child(rt, false, false);
+                }
                 // harness self-check: the child did what the model says (else the case is an artefact, not a verdict)
                 V_CHECK(stops_seen >= e.stops && stops_seen <= e.stops + e.maybe, "C11:harness-child-stop-count",
-                        "t%d %s: kernel reported %d stops, model expects %d..%d", t, real_str(rt).c_str(), stops_seen, e.stops, e.stops + e.maybe);
+                        "%s: kernel reported %d stops, model expects %d..%d", ctx.c_str(), stops_seen, e.stops, e.stops + e.maybe);
                 for (int ph = 0; ph < NPHASE; ph++)
-                    V_CHECK(g_sh->reached[t][ph] == e.reach[ph], "C11:child-progress", "t%d %s: point '%s' %s in the child, model says %s",
-                            t, real_str(rt).c_str(), PH[ph], g_sh->reached[t][ph] ? "reached" : "not reached", e.reach[ph] ? "reached" : "not reached");
+                    V_CHECK(g_sh->reached[t][ph] == e.reach[ph], "C11:child-progress", "%s: point '%s' %s in the child, model says %s",
+                            ctx.c_str(), PH[ph], g_sh->reached[t][ph] ? "reached" : "not reached", e.reach[ph] ? "reached" : "not reached");
                 for (int ai = 0; ai < rt.nact; ai++)
-                    V_CHECK(g_sh->acted[t][ai] == e.acted[ai], "C11:child-progress", "t%d %s: action #%d %s, model says %s",
-                            t, real_str(rt).c_str(), ai, g_sh->acted[t][ai] ? "executed" : "not executed", e.acted[ai] ? "executed" : "not executed");
+                    V_CHECK(g_sh->acted[t][ai] == e.acted[ai], "C11:child-progress", "%s: action #%d %s, model says %s",
+                            ctx.c_str(), ai, g_sh->acted[t][ai] ? "executed" : "not executed", e.acted[ai] ? "executed" : "not executed");
                 if (finals_seen == 1 && e.status_by_code && WIFEXITED(final_status)) {
                     // the child ran to its end: its exit status is the verdict the code under test hands to the parent, so a
                     // wrong zero / non-zero here is a violation of the property, whatever the parent makes of it
                     int k = WEXITSTATUS(final_status);
                     if (e.child_failures > 0 && k == 0)
-                        return verif::fail("C11:records-for-failed-child", "t%d %s: the child recorded %d failure(s) (%s) and still exited 0, so the parent cannot record the test as failed; parent records %s",
-                                           t, real_str(rt).c_str(), e.child_failures, failure_routes(rt, e).c_str(), toks_str(got).c_str());
+                        return verif::fail("C11:records-for-failed-child", "%s: the child recorded %d failure(s) (%s) and still exited 0, so the parent cannot record the test as failed; parent records %s",
+                                           ctx.c_str(), e.child_failures, failure_routes(rt, e).c_str(), toks_str(got).c_str());
                     if (e.child_failures == 0 && k != 0)
-                        return verif::fail("C11:records-for-clean-child", "t%d %s: the child completed without any failure and exited %d; parent records %s",
-                                           t, real_str(rt).c_str(), k, toks_str(got).c_str());
+                        return verif::fail("C11:records-for-clean-child", "%s: the child completed without any failure and exited %d; parent records %s",
+                                           ctx.c_str(), k, toks_str(got).c_str());
                 } else if (finals_seen == 1 && !e.status_by_code) {
-                    // the status was produced by the harness's own action (_exit / raise / abort / guard): a mismatch is an artefact
+                    // the status was produced by the harness's own action (_exit / raise / abort / guard) or by the crash-on-fail abort
                     bool match = e.final_signal ? (WIFSIGNALED(final_status) && WTERMSIG(final_status) == e.final_arg)
                                                 : (WIFEXITED(final_status) && WEXITSTATUS(final_status) == e.final_arg);
-                    V_CHECK(match, "C11:harness-child-status", "t%d %s: kernel status 0x%x, model expects %s %d", t, real_str(rt).c_str(),
+                    V_CHECK(match, "C11:harness-child-status", "%s: kernel status 0x%x, model expects %s %d", ctx.c_str(),
                             final_status, e.final_signal ? "signal" : "exit", e.final_arg);
                 }
                 if (e.guard_ret) verif::observe("a longjmp-style failure in a plugin action makes the child return from runOneTest into the copied parent frame (harness guard _exit(201)); a real runner's child would go on running the remaining tests itself");
-                if (e.guard_throw) verif::observe("a throwing failure in a plugin action leaves runOneTest in the child as an exception (harness guard _exit(202)); a real runner's child would std::terminate");
+                if (e.guard_throw) verif::observe("a throwing failure in a plugin action (or, with rethrow on, an unexpected exception in a test) leaves runOneTest in the child as an exception (harness guard _exit(202)); a real runner's child would std::terminate");
                 // the property: records in the parent
                 std::vector<Tok> want;
                 for (int k = 0; k < stops_seen; k++) { Tok s = {R_STOPPED, 0}; want.push_back(s); }
@@ -589,10 +728,10 @@ int run_real_program(int ntests, bool& nontrivial) {
                     const char* sig = e.final_signal ? "C11:records-for-signalled-child"
                                     : (e.stops + e.maybe > 0 && (int)std::count_if(got.begin(), got.end(), [](const Tok& x) { return x.kind == R_STOPPED; }) != stops_seen) ? "C11:records-for-stopped-child"
                                     : e.final_arg != 0 ? "C11:records-for-failed-child" : "C11:records-for-clean-child";
-                    return verif::fail(sig, "t%d %s (%d EINTR seen, %d stops seen): parent recorded %s, expected %s", t, real_str(rt).c_str(), eintr_seen, stops_seen,
+                    return verif::fail(sig, "%s (%d EINTR seen, %d stops seen): parent recorded %s, expected %s", ctx.c_str(), eintr_seen, stops_seen,
                                        toks_str(got).c_str(), toks_str(want).c_str());
                 }
-                V_CHECK(finals_seen == 1, "C11:child-not-waited-for", "t%d %s: the parent saw %d terminal statuses for the child", t, real_str(rt).c_str(), finals_seen);
+                V_CHECK(finals_seen == 1, "C11:child-not-waited-for", "%s: the parent saw %d terminal statuses for the child", ctx.c_str(), finals_seen);
             }
             return 0;
         }();
@@ -606,7 +745,10 @@ int run_real_program(int ntests, bool& nontrivial) {
 int run_stub_program(int ntests, bool& nontrivial) {
     reset_program_state();
     g_ntests = ntests;
-    for (int t = 0; t < ntests; t++) g_seg_eintr_left[t] = g_stub[t].fork_fail ? 0 : g_stub[t].segs[0].eintr;
+    default_opts();
+    memset(g_real, 0, sizeof g_real);
+    g_plan_n = ntests;
+    for (int t = 0; t < ntests; t++) { g_plan[t] = t; g_seg_eintr_left[t] = g_stub[t].fork_fail ? 0 : g_stub[t].segs[0].eintr; }
     g_sigcont_seen = 0;
     struct sigaction sa, old; memset(&sa, 0, sizeof sa); sa.sa_handler = on_sigcont; sigemptyset(&sa.sa_mask);
     sigaction(SIGCONT, &sa, &old);
@@ -620,10 +762,10 @@ int run_stub_program(int ntests, bool& nontrivial) {
     sigaction(SIGCONT, &old, NULL);
 
     if (!g_flag_sig.empty()) return verif::fail(g_flag_sig.c_str(), "%s", g_flag_msg.c_str());
-    if (int r = check_totals(p, ntests)) return r;
+    if (int r = check_totals(p, ntests, ntests, 0)) return r;
     for (int t = 0; t < ntests; t++) {
         const StubTest& st = g_stub[t];
-        std::vector<Tok> got = p.toks_of(t), want;
+        std::vector<Tok> got = p.toks_of(0, t), want;
         if (st.fork_fail) {
             Tok f = {R_FORK, 0}; want.push_back(f);
             V_CHECK(same(got, want), "C11:records-for-fork-failure", "t%d %s: parent recorded %s, expected %s", t, stub_str(st).c_str(), toks_str(got).c_str(), toks_str(want).c_str());
@@ -660,7 +802,8 @@ int run_stub_program(int ntests, bool& nontrivial) {
 
 // ---- decoder ------------------------------------------------------------------------------------------------------------
 const int PHASE_SEL[NPHASE] = {BODY, SETUP, TEARDOWN, PRE, POST};
-const int KIND_SEL[8] = {K_NOTHING, K_FAIL, K_EXIT, K_SIGNAL, K_ABORT, K_EXIT, K_SIGNAL, K_SIGNAL};
+const int KIND_SEL[16] = {K_NOTHING, K_FAIL, K_EXIT, K_SIGNAL, K_ABORT, K_EXIT, K_SIGNAL, K_SIGNAL,       // 0..7: the original table (corpus files keep their meaning)
+                          K_PRINT, K_FAIL, K_EXIT, K_SIGNAL, K_PRINT, K_ABORT, K_SIGNAL, K_EXIT};
 const int EXIT_LATTICE[8] = {0, 1, 2, 126, 127, 128, 254, 255};
 const int FORK_ERRNO[3] = {EAGAIN, ENOMEM, ENOSYS};
 const int WAIT_ERRNO[5] = {ECHILD, EINVAL, EFAULT, ESRCH, EAGAIN};
@@ -674,10 +817,10 @@ void decode_real(Reader& r, int ntests, std::string& desc) {
         for (int ai = 0; ai < rt.nact; ai++) {
             Act& a = rt.acts[ai];
             a.phase = PHASE_SEL[r.below(NPHASE)];
-            uint32_t ks = r.below(8);
+            uint32_t ks = r.below(16);
             a.kind = KIND_SEL[ks];
-            if (a.kind == K_FAIL) a.var = (int)r.below(4);
-            else if (a.kind == K_EXIT) a.arg = ks == 5 ? r.pick(EXIT_LATTICE) : (int)r.u8();
+            if (a.kind == K_FAIL) { uint32_t fs = r.below(8); a.var = FAIL_SEL[fs]; a.arg = (fs == 4 || fs == 7) ? 1 : 0; }
+            else if (a.kind == K_EXIT) a.arg = (ks == 5 || ks == 15) ? r.pick(EXIT_LATTICE) : (int)r.u8();
             else if (a.kind == K_SIGNAL) a.arg = ks == 7 ? r.pick(STOP_SIGS) : 1 + (int)r.below(31);
         }
         switch (r.below(4)) {
@@ -686,16 +829,63 @@ void decode_real(Reader& r, int ntests, std::string& desc) {
         case 2: { int total = 1 + (int)r.below(EINTR_TOLERATED); rt.eintr[0] = (int)r.below((uint32_t)total + 1); rt.eintr[1] = total - rt.eintr[0]; break; }
         case 3: rt.eintr[1] = 1 + (int)r.below(EINTR_TOLERATED); break;
         }
+        if (g_opt.route != ROUTE_REGISTRY) {      // one more byte per test, only on the new routes (old inputs keep their layout)
+            uint32_t shape = r.below(4);
+            rt.ignored = shape >= 2;
+            rt.flag = g_opt.route == ROUTE_PER_TEST && (shape == 0 || shape == 2);
+        }
+        if (test_inproc(rt)) {
+            // this test runs inside the harness process: events that end a process are replaced by printing, failures that
+            // leave a plugin action (no C11 matter in the parent) by recorded-only ones
+            for (int ai = 0; ai < rt.nact; ai++) {
+                Act& a = rt.acts[ai];
+                if (a.kind == K_EXIT || a.kind == K_SIGNAL || a.kind == K_ABORT) { a.kind = K_PRINT; a.arg = 0; }
+                if (a.kind == K_FAIL && (a.phase == PRE || a.phase == POST)) a.var = F_ADDONLY;
+            }
+            rt.eintr[0] = rt.eintr[1] = 0;
+        }
         desc += sfmt(" t%d%s", t, real_str(rt).c_str());
     }
 }
 
+// how the separate-process flag reaches the tests (bits 1-2 of the first byte) and the program-level switches
+void decode_opts(Reader& r, uint8_t m, std::string& desc) {
+    default_opts();
+    int route = (m >> 1) & 3;
+    if (route == 3) route = ROUTE_REGISTRY;
+    g_opt.route = route;
+    if (route == ROUTE_REGISTRY) return;
+    uint8_t P = r.u8();
+    if (route == ROUTE_PER_TEST) {
+        g_opt.reg_flag = (P & 1) != 0; g_opt.run_ignored = (P & 2) != 0;
+        desc += sfmt(" {flags on single tests%s%s}", g_opt.reg_flag ? " + registry flag" : "", g_opt.run_ignored ? " + registry run-ignored" : "");
+    } else {
+        g_opt.reg_flag = true;                       // -p
+        g_opt.run_ignored = (P & 1) != 0;
+        g_opt.repeat_sel = (P >> 1) & 3;
+        static const int REP[4] = {1, 2, 3, 2};
+        g_opt.repeat = REP[g_opt.repeat_sel];
+        g_opt.verbose = (P & 8) != 0; g_opt.crash_on_fail = (P & 16) != 0; g_opt.rethrow = (P & 32) == 0;
+        desc += sfmt(" {CommandLineTestRunner -p%s%s%s%s%s}", g_opt.run_ignored ? " -ri" : "", g_opt.verbose ? " -v" : "", g_opt.crash_on_fail ? " -f" : "",
+                     g_opt.rethrow ? "" : " -e", g_opt.repeat_sel == 1 ? " -r2" : g_opt.repeat_sel == 2 ? " -r3" : g_opt.repeat_sel == 3 ? " -r" : "");
+    }
+}
+
 void classes_real(int ntests) {
+    verif::cls(g_opt.route == ROUTE_REGISTRY ? "a:route-registry-flag" : g_opt.route == ROUTE_PER_TEST ? "a:route-flag-on-single-tests" : "a:route-command-line-p");
+    if (g_opt.route == ROUTE_PER_TEST && g_opt.reg_flag) verif::cls("a:route-flag-on-single-tests+registry-flag");
+    if (g_opt.run_ignored) verif::cls("a:run-ignored");
+    if (g_opt.route == ROUTE_COMMAND_LINE) {
+        verif::cls(sfmt("a:repetitions-%d", g_opt.repeat).c_str());
+        if (g_opt.crash_on_fail) verif::cls("a:crash-on-fail(-f)");
+        if (g_opt.rethrow) verif::cls("a:rethrow-unexpected-exceptions(default)"); else verif::cls("a:no-rethrow(-e)");
+        if (g_opt.verbose) verif::cls("a:verbose(-v)");
+    }
     for (int t = 0; t < ntests; t++) {
         const RealTest& rt = g_real[t];
         for (int ai = 0; ai < rt.nact; ai++) {
             const Act& a = rt.acts[ai];
-            static const char* const KN[5] = {"nothing", "fail", "exit", "signal", "abort"};
+            static const char* const KN[6] = {"nothing", "fail", "exit", "signal", "abort", "print"};
             verif::cls(sfmt("a:%s@%s", KN[a.kind], PH[a.phase]).c_str());
             if (a.kind == K_SIGNAL) verif::cls(sfmt("a:signal-%02d", a.arg).c_str());
             if (a.kind == K_EXIT) verif::cls(a.arg == 0 ? "a:exit-0" : a.arg == 1 ? "a:exit-1" : a.arg < 128 ? "a:exit-2..127" : a.arg < 255 ? "a:exit-128..254" : "a:exit-255");
@@ -705,6 +895,9 @@ void classes_real(int ntests) {
             }
         }
         if (rt.nact == 2) verif::cls("a:two-actions");
+        if (g_opt.route != ROUTE_REGISTRY)
+            verif::cls(!test_runs(rt) ? "a:test-ignored-not-run" : test_inproc(rt) ? (rt.ignored ? "a:test-run-ignored-in-parent-process" : "a:test-in-parent-process")
+                                      : (rt.ignored ? "a:test-run-ignored-in-child" : "a:test-in-child"));
         if (rt.eintr[0]) verif::cls("a:eintr-before-first-status");
         if (rt.eintr[1]) verif::cls("a:eintr-before-second-status");
     }
@@ -749,6 +942,7 @@ void decode_stub(Reader& r, int ntests, std::string& desc) {
 
 // one completely enumerated sub-space, in programs of 8 tests
 int run_enum_block(int block, bool& nontrivial, std::string& desc) {
+    default_opts();
     int phase = block % NPHASE; bool exits = block >= NPHASE;
     int items = exits ? 256 : 32;
     desc = sfmt("enumeration: every %s at point '%s' (%d children)", exits ? "exit status 0..255" : "signal 1..31 and abort()", PH[phase], items);
@@ -793,6 +987,7 @@ extern "C" int verif_case(const uint8_t* data, size_t size) {
         int ntests = 1 + (int)(n % MAXT);
         if ((m & 1) == 0) {
             desc = "real:";
+            decode_opts(r, m, desc);
             decode_real(r, ntests, desc);
             classes_real(ntests);
             verif::cls("a:programs");
